@@ -116,6 +116,13 @@ type internalError struct {
 	origError         error
 }
 
+// Unwrap returns the error this internalError was created from, so that errors.Is and
+// errors.As on an error returned by a graph run reach the failing node's own error,
+// ErrExceedMaxSteps or the context's cancellation error.
+func (i *internalError) Unwrap() error {
+	return i.origError
+}
+
 func (i *internalError) Error() string {
 	sb := strings.Builder{}
 	sb.WriteString(string("[" + i.typ + "]\n"))
